@@ -18,7 +18,7 @@ LEVEL = "model_checking"
 RULE = ("shared property p declared by two allOf members: full product of ordered kind pairs (17 x 17) x member form (ref+inline; "
         "thorough: inline+inline, ref+ref) x requiredness pattern (4) x default pattern (none / first member / second member); each "
         "case generates BOTH member orders; plus inheritance chains and diamonds under all declaration orders and members with "
-        "disjoint property sets, a colliding sibling (snake-case equal to the shared name), enums whose member names are a subset while the values are not, self-referential root parents inherited through chains, single-reference allOf that adds properties / required / additionalProperties, names that are suffixes / prefixes of one another; oracle: order-swap differential on the abstract attribute type, RM-narrow partial order, union of "
+        "disjoint property sets, a colliding sibling (snake-case equal to the shared name), enums whose member names are a subset while the values are not, self-referential root parents inherited through chains, single-reference allOf that adds properties / required / additionalProperties, names that are suffixes / prefixes of one another, schemas titled like the schema they compose; a second composition of the referenced member declared before / after (it keeps the member's own kind, requiredness and default); oracle: order-swap differential on the abstract attribute type, RM-narrow partial order, union of "
         "properties and of requiredness, round trip of instances valid for all members; non-trivial = both orders generated or diagnosed; referenced members without properties, a sibling composition of the same parent that fails (type conflict, non-object member, dangling reference), a default carried by an untyped member")
 FLOOR = 0.5
 ASSUMPTIONS = ["RM-narrow: integer < number, date/date-time < string, enum < its base type, sub-enum < enum, everything < any, array(k) ordered like k"]
@@ -210,6 +210,11 @@ def cases(tier):
                 continue
             yield {"labels": [f"shape={shape}", "order=" + ",".join(order)], "payload": {"mode": "shape", "shape": shape, "order": list(order)}}
             # the same shape with names that are suffixes of one another (the parent's name ends with the child's, and the reverse)
+            if shape == "chain3":
+                # a schema TITLED like the schema it composes (its class is named after the title, the parent's after its own title)
+                for tn in TITLES:
+                    yield {"labels": [f"shape={shape}", "order=" + ",".join(order), f"titles={tn}"],
+                           "payload": {"mode": "shape", "shape": shape, "order": list(order), "titles": tn}}
             if shape in ("chain3", "selfref-chain"):
                 for naming in NAMINGS:
                     yield {"labels": [f"shape={shape}", "order=" + ",".join(order), f"names={naming}"],
@@ -400,6 +405,10 @@ NAMINGS = {"parent-ends-with-child": {"Base": "MyNewPet", "Mid": "NewPet", "M": 
            "parent-starts-with-child": {"Base": "ItemBaseX", "Mid": "ItemBase", "M": "Item"}}
 
 
+TITLES = {"child-titled-like-parent": {"M": "Mid", "Mid": "Middle"}, "middle-titled-like-root": {"Mid": "Base", "Base": "Root"},
+          "both": {"M": "Mid", "Mid": "Base", "Base": "Root"}}
+
+
 def _shape(p):
     ref = lambda n: {"$ref": f"#/components/schemas/{n}"}  # noqa: E731
     shape = p["shape"]
@@ -472,6 +481,8 @@ def _shape(p):
         inst = {"a": "x", "b": 1, "c": "2020-01-02T03:04:05+00:00", "flag": False}
     doc = gen.base_doc({k: comps[k] for k in p["order"]})
     target = "M"
+    for comp, title in TITLES.get(p.get("titles"), {}).items():
+        doc["components"]["schemas"][comp]["title"] = title
     if p.get("naming"):
         import json
         text = json.dumps(doc)
